@@ -187,3 +187,193 @@ Qed.
 
 Lemma compare_pre_refl sy p : compare_pre sy p p = 0.
 Proof. exact (cc_refl _ _ (compare_pre_core sy) p I). Qed.
+
+(* ------------------------------------------------------------------ the canonical string as rendered text *)
+Definition lowf (sy : system) : bytes -> bytes := if sys_eqb sy SNuGet then to_lower else (fun x => x).
+Definition showb (sb : bool) (sy : system) : bool := if sys_eqb sy SNuGet then false else sb.
+
+Lemma dots_map (f : bytes -> bytes) ps : flat_map (fun q => 46%N :: f q) ps = dots (map f ps).
+Proof. induction ps as [|p ps IH]; [reflexivity|]. cbn [flat_map map dots]. fold (dots (map f ps)). rewrite IH. reflexivity. Qed.
+
+Lemma canon_shape sb v :
+  generic_canon sb v =
+  pfx (v_sys v) ++ pr true (cnums (v_num v)) ++
+  (if is_wildcard (v_num v) then []
+   else r_pre (map (lowf (v_sys v)) (v_pre v)) ++ (if showb sb (v_sys v) then v_build v else [])).
+Proof.
+  unfold generic_canon. fold (pfx (v_sys v)). rewrite print_nums_cnums.
+  destruct (is_wildcard (v_num v)); [rewrite app_nil_r; reflexivity|].
+  fold (showb sb (v_sys v)). fold (lowf (v_sys v)). rewrite <- app_assoc. f_equal. f_equal. f_equal.
+  destruct (v_pre v) as [|p ps]; [reflexivity|]. cbn [map r_pre]. unfold joind. rewrite dots_map. reflexivity.
+Qed.
+
+(* ------------------------------------------------------------------ facts about the canonical numbers of a parsed version *)
+Lemma Forall_cut_wild (P : Z -> Prop) m : Forall P m -> Forall P (cut_wild m).
+Proof.
+  induction 1 as [|x m Hx _ IH]; [constructor|]. cbn [cut_wild].
+  destruct (x =? wildcard); constructor; auto.
+Qed.
+
+Lemma lenok_le sy n m : lenok sy n = true -> (m <= n)%nat -> lenok sy m = true.
+Proof. destruct sy; cbn [lenok]; intros H L; try reflexivity; apply Nat.leb_le in H; apply Nat.leb_le; lia. Qed.
+
+Lemma lenok_3 sy : lenok sy 3 = true. Proof. destruct sy; reflexivity. Qed.
+
+Lemma cnums_facts sy l : nums_wf sy l ->
+  Forall (numval_ok sy) (cnums l) /\ lenok sy (length (cnums l)) = true /\ cnums l <> [] /\
+  nuget_trim sy (cnums l) = cnums l.
+Proof.
+  intros (W1 & W2 & W3 & W4).
+  assert (Fp : Forall (numval_ok sy) (padz l)).
+  { unfold padz. apply Forall_app. split; [exact W1|]. apply Forall_forall. intros x Hx. apply repeat_spec in Hx. subst x. apply zero_ok. }
+  split; [apply Forall_cut_wild; exact Fp|].
+  assert (Lp : lenok sy (length (padz l)) = true).
+  { rewrite padz_length. destruct (Nat.max_spec 3 (length l)) as [[_ ->]|[_ ->]]; [exact W2 | apply lenok_3]. }
+  split; [apply (lenok_le sy _ _ Lp); apply cut_wild_length|].
+  split.
+  { apply cut_wild_nonempty. intros E. apply (f_equal (@length Z)) in E. rewrite padz_length in E. cbn [length] in E. lia. }
+  unfold nuget_trim. destruct (sys_eqb sy SNuGet) eqn:EN; [|reflexivity]. cbn [andb].
+  destruct (Nat.eqb_spec (length (cnums l)) 4) as [E4|E4]; [|reflexivity]. cbn [andb].
+  destruct (Z.eqb_spec (get_num (cnums l) 3) 0) as [Ez|Ez]; [|reflexivity]. exfalso.
+  assert (ESy : sy = SNuGet) by (destruct sy; try (cbv in EN; discriminate EN); reflexivity). subst sy.
+  cbn [lenok] in W2. apply Nat.leb_le in W2.
+  pose proof (cut_wild_length (padz l)) as CL. fold (cnums l) in CL. rewrite padz_length in CL.
+  assert (L4 : length l = 4%nat) by lia.
+  assert (Ep : padz l = l) by (apply padz_long; lia).
+  unfold cnums in *. rewrite Ep in *.
+  pose proof (cut_after l) as CA.
+  assert (G : get_num l 3 = get_num (cut_wild l) 3).
+  { rewrite CA at 1. apply get_num_app_l. lia. }
+  apply (W4 eq_refl L4). rewrite G. exact Ez.
+Qed.
+
+Lemma numval_not_inf sy v : numval_ok sy v -> v <> infinity.
+Proof. intros [(E & _)|R]; [subst v; unfold wildcard, infinity; lia | lia]. Qed.
+
+Lemma map_fst_tv t : map fst (map tv t) = map tok t.
+Proof. rewrite map_map. apply map_ext. reflexivity. Qed.
+Lemma map_snd_tv t : map snd (map tv t) = t.
+Proof. rewrite map_map. cbn [tv snd]. apply map_id. Qed.
+
+Lemma lowf_elemb sy e : elemb sy (lowf sy e) = elemb sy e.
+Proof. unfold lowf. destruct (sys_eqb sy SNuGet); [apply elemb_lower | reflexivity]. Qed.
+
+Lemma lowf_idem sy e : lowf sy (lowf sy e) = lowf sy e.
+Proof. unfold lowf. destruct (sys_eqb sy SNuGet); [apply to_lower_idem | reflexivity]. Qed.
+
+(* ------------------------------------------------------------------ the re-parse *)
+Definition c10_family_dom (sy : system) (v : version) : bool :=
+  negb (is_wildcard (v_num v)) || (null (v_pre v) && allz (after_wild (v_num v))).
+
+(* the version read back from the canonical string *)
+Definition reparsed (sb : bool) (sy : system) (v : version) : version :=
+  let w := is_wildcard (v_num v) in
+  let pre' := if w then [] else map (lowf sy) (v_pre v) in
+  {| v_sys := sy; v_user_num_count := Z.of_nat (length (cnums (v_num v)));
+     v_is_prerelease := negb (null pre'); v_str := generic_canon sb v;
+     v_num := finish_nums sy (cnums (v_num v)); v_pre := pre';
+     v_build := if w then [] else if showb sb sy then v_build v else []; v_ext := NoExt |}.
+
+Theorem canon_parses sb sy v : family sy -> wf_parsed sy v ->
+  parse sy (generic_canon sb v) = Ok (reparsed sb sy v).
+Proof.
+  intros F (Esys & Eext & Wn & Fpre & bl & Eb & Fbl).
+  destruct (cnums_facts sy (v_num v) Wn) as (C1 & C2 & C3 & C4).
+  set (w := is_wildcard (v_num v)).
+  set (pre' := if w then [] else map (lowf sy) (v_pre v)).
+  set (bl' := if w then [] else if showb sb sy then bl else []).
+  destruct (cnums (v_num v)) as [|x t] eqn:Ec; [congruence|].
+  assert (Wl : wl (x :: t)) by (rewrite <- Ec; apply wl_cut).
+  assert (Ni : Forall (fun v => v <> infinity) (x :: t)).
+  { eapply Forall_impl; [|exact C1]. intros a Ha. exact (numval_not_inf sy a Ha). }
+  assert (Estr : generic_canon sb v = pfx sy ++ r_nums ((tok x, x) :: map tv t) ++ r_pre pre' ++ r_build bl').
+  { rewrite canon_shape, Esys, Ec. rewrite (pr_true_toks x t Wl Ni). cbn [r_nums]. rewrite map_fst_tv.
+    unfold pre', bl'. fold w. destruct w; [reflexivity|].
+    destruct (showb sb sy); [rewrite Eb; reflexivity | reflexivity]. }
+  assert (Hok : toks_ok sy [] ((tok x, x) :: map tv t)).
+  { change ((tok x, x) :: map tv t) with (map tv (x :: t)).
+    apply (toks_ok_canon sy F (x :: t) [] Wl C1); [exact C2 | reflexivity]. }
+  assert (Hpre : Forall (fun e => elemb sy e = true) pre').
+  { unfold pre'. destruct w; [constructor|]. apply Forall_forall. intros e He. apply in_map_iff in He.
+    destruct He as (e0 & <- & He0). rewrite lowf_elemb. rewrite Forall_forall in Fpre. exact (Fpre e0 He0). }
+  assert (Hbl : Forall (fun e => elemb sy e = true) bl').
+  { unfold bl'. destruct w; [constructor|]. destruct (showb sb sy); [exact Fbl | constructor]. }
+  assert (Hgo : pre' <> [] \/ bl' <> [] -> sys_eqb sy SGo && Nat.ltb (S (length (map tv t))) 3 = false).
+  { intros H. assert (Ew : w = false) by (unfold pre', bl' in H; destruct w; [destruct H; congruence | reflexivity]).
+    pose proof (cnums_length_nowild (v_num v) Ew) as L3. rewrite Ec in L3. cbn [length] in L3.
+    rewrite map_length. destruct (Nat.ltb_spec (S (length t)) 3); [lia|]. apply andb_false_r. }
+  pose proof (parse_rendered sy (tok x) x (map tv t) pre' bl' F Hok Hpre Hbl Hgo) as PR.
+  cbv zeta in PR. rewrite <- Estr in PR. rewrite PR. f_equal.
+  rewrite map_snd_tv, C4. unfold rendered_version, reparsed. fold w. fold pre'. rewrite Ec.
+  f_equal. unfold bl'. destruct w; [reflexivity|]. destruct (showb sb sy); [symmetry; exact Eb | reflexivity].
+Qed.
+
+Lemma finish_cnums sy l : family sy -> cnums (finish_nums sy (cnums l)) = cnums l.
+Proof.
+  intros F. unfold finish_nums. rewrite (family_not_gems sy F). cbn [orb].
+  destruct (sys_eqb sy SNuGet); [rewrite pad3_padz, cnums_padz|]; apply cnums_idem.
+Qed.
+
+Lemma finish_wild sy l : family sy -> is_wildcard (finish_nums sy (cnums l)) = is_wildcard l.
+Proof.
+  intros F. rewrite <- (is_wildcard_cnums (finish_nums sy (cnums l))), (finish_cnums sy l F). apply is_wildcard_cnums.
+Qed.
+
+(* clause 3: canonicalising again returns the identical string (for every parsed version) *)
+Theorem canon_reparsed_fixed sb sy v : family sy -> v_sys v = sy ->
+  generic_canon sb (reparsed sb sy v) = generic_canon sb v.
+Proof.
+  intros F Esys. rewrite (canon_shape sb (reparsed sb sy v)), (canon_shape sb v).
+  unfold reparsed. cbn [v_sys v_num v_pre v_build]. rewrite Esys, (finish_cnums sy _ F), (finish_wild sy _ F).
+  destruct (is_wildcard (v_num v)); [reflexivity|].
+  rewrite map_map. rewrite (map_ext (fun e => lowf sy (lowf sy e)) (lowf sy) (lowf_idem sy)).
+  destruct (showb sb sy); reflexivity.
+Qed.
+
+(* clause 2: the re-parsed version compares equal, on the domain *)
+Theorem reparsed_equal sb sy v : family sy -> c10_family_dom sy v = true ->
+  generic_compare sy v (reparsed sb sy v) = 0.
+Proof.
+  intros F D. unfold c10_family_dom in D. unfold generic_compare, reparsed. cbn [v_num v_pre].
+  assert (En : compare_nums (v_num v) (finish_nums sy (cnums (v_num v))) = 0).
+  { unfold finish_nums. rewrite (family_not_gems sy F). cbn [orb].
+    destruct (is_wildcard (v_num v)) eqn:W; cbn [negb orb] in D.
+    - apply andb_true_iff in D. destruct D as [_ D].
+      rewrite (cnums_wild _ W). rewrite (cut_after (v_num v)) at 1.
+      destruct (sys_eqb sy SNuGet).
+      + rewrite pad3_padz. unfold padz. apply compare_nums_common; [exact D | apply allz_repeat].
+      + rewrite <- (app_nil_r (cut_wild (v_num v))) at 2. apply compare_nums_common; [exact D | reflexivity].
+    - rewrite (cnums_nowild _ W).
+      assert (E : (if sys_eqb sy SNuGet then pad3 (padz (v_num v)) 3 else padz (v_num v)) = padz (v_num v)).
+      { destruct (sys_eqb sy SNuGet); [rewrite pad3_padz; apply padz_idem | reflexivity]. }
+      rewrite E. unfold padz. rewrite <- (app_nil_r (v_num v)) at 1.
+      apply compare_nums_common; [reflexivity | apply allz_repeat]. }
+  rewrite En. cbn [Z.eqb negb].
+  destruct (is_wildcard (v_num v)) eqn:W; cbn [negb orb] in D.
+  - apply andb_true_iff in D. destruct D as [D _]. destruct (v_pre v); [reflexivity | discriminate].
+  - destruct (v_pre v) as [|p ps]; [reflexivity|]. cbn [map].
+    change (lowf sy p :: map (lowf sy) ps) with (map (lowf sy) (p :: ps)).
+    unfold lowf. destruct (sys_eqb sy SNuGet) eqn:EN.
+    + assert (ESy : sy = SNuGet) by (destruct sy; try (cbv in EN; discriminate EN); reflexivity). subst sy.
+      apply compare_pre_lower.
+    + rewrite map_id. apply compare_pre_refl.
+Qed.
+
+(* C10 for the family, model level *)
+Theorem family_reparse_all sb sy s v : family sy -> parse sy s = Ok v ->
+  exists v', parse sy (generic_canon sb v) = Ok v' /\ generic_canon sb v' = generic_canon sb v /\
+             (c10_family_dom sy v = true -> generic_compare sy v v' = 0).
+Proof.
+  intros F P. pose proof (parse_wf sy s v F P) as W.
+  exists (reparsed sb sy v). split; [exact (canon_parses sb sy v F W)|].
+  split; [apply canon_reparsed_fixed; [exact F | apply W]|].
+  intros D. exact (reparsed_equal sb sy v F D).
+Qed.
+
+Theorem family_reparse_dom sb sy s v : family sy -> parse sy s = Ok v -> c10_family_dom sy v = true ->
+  exists v', parse sy (generic_canon sb v) = Ok v' /\ generic_compare sy v v' = 0 /\
+             generic_canon sb v' = generic_canon sb v.
+Proof.
+  intros F P D. destruct (family_reparse_all sb sy s v F P) as (v' & H1 & H2 & H3).
+  exists v'. split; [exact H1|]. split; [exact (H3 D) | exact H2].
+Qed.
